@@ -3,154 +3,142 @@ From JLS Require Import Generated SigDef SigDefProofs.
 Import ListNotations.
 Local Open Scope N_scope.
 Ltac Zify.zify_post_hook ::= Z.div_mod_to_equations.
-(* ------------------------------------------------------------------ *)
-(* the guarded normal form                                             *)
-
-Definition sd_eps1 (w : N) (d : sigdef) : N :=
-  (sd_eps0 w d + sd_sumdf1 w d - 1) / sd_sumdf1 w d * sd_sumdf1 w d.
-Definition sd_spd1 (w : N) (d : sigdef) : N :=
-  (sd_spd0 w d + sd_sdf1 w d - 1) / sd_sdf1 w d * sd_sdf1 w d.
-
-Lemma mins : forall w d,
-  10 <= sd_sdf0 w d /\ 10 <= sd_spd0 w d /\ 10 <= sd_eps0 w d /\ 10 <= sd_sumdf1 w d.
-Proof. intros. unfold sd_sdf0, sd_spd0, sd_eps0, sd_sumdf1. unfold_consts. lia. Qed.
-
-Lemma align_guarded_form : forall w d, In w sd_widths ->
-  guard_sdf w d -> guard_spd w d -> guard_eps w d ->
-  exists k, LargestDiv (sd_eps1 w d) (sd_spd1 w d / sd_sdf1 w d) k /\
-    sd_spd1 w d mod sd_sdf1 w d = 0 /\ sd_sdf1 w d * k <= sd_spd1 w d /\ sd_spd1 w d < U32 /\
-    sd_align w d = SdOk (mkSigDef (sd_sdf1 w d * k) (sd_sdf1 w d) (sd_eps1 w d) (sd_sumdf1 w d)
-                                   (anno (sd_defaults w d)) (utc (sd_defaults w d))).
-Proof.
-  intros w d Hw G1 G2 G3.
-  destruct (width_facts w Hw) as (Hw0 & Hm0 & Hm256 & _ & _).
-  destruct (mins w d) as (M1 & M2 & M3 & M4).
-  unfold guard_sdf, guard_spd, guard_eps in *.
-  pose proof (round_spec (sd_sdf0 w d) (sd_multiple w) Hm0) as (R1 & R2 & R3).
-  fold (sd_sdf1 w d) in R1, R2, R3.
-  assert (Hs0 : sd_sdf1 w d <> 0) by lia.
-  assert (Hu0 : sd_sumdf1 w d <> 0) by lia.
-  pose proof (round_spec (sd_spd0 w d) (sd_sdf1 w d) Hs0) as (S1 & S2 & S3).
-  fold (sd_spd1 w d) in S1, S2, S3.
-  pose proof (round_spec (sd_eps0 w d) (sd_sumdf1 w d) Hu0) as (E1 & E2 & E3).
-  fold (sd_eps1 w d) in E1, E2, E3.
-  assert (Hdiv : sd_spd1 w d = sd_sdf1 w d * (sd_spd1 w d / sd_sdf1 w d)) by (apply N.div_exact; assumption).
-  assert (Hepd : 1 <= sd_spd1 w d / sd_sdf1 w d).
-  { destruct (N.eq_dec (sd_spd1 w d / sd_sdf1 w d) 0) as [Z|Z]; [rewrite Z in Hdiv; lia|lia]. }
-  destruct (fit_loop_total (sd_eps1 w d) (sd_spd1 w d / sd_sdf1 w d) Hepd) as (k & Hk & HL).
-  exists k. split; [exact HL|]. split; [exact S1|].
-  assert (Hle : sd_sdf1 w d * k <= sd_spd1 w d).
-  { eapply N.le_trans; [|apply N.eq_le_incl; symmetry; exact Hdiv].
-    apply N.mul_le_mono_l. destruct HL as (_ & B & _). exact B. }
-  split; [exact Hle|]. split; [lia|].
-  unfold sd_align.
-  destruct (w =? 0) eqn:Ew; [apply N.eqb_eq in Ew; contradiction|].
-  fold (sd_sdf0 w d) (sd_spd0 w d) (sd_eps0 w d) (sd_sumdf1 w d).
-  rewrite (round_up_exact (sd_sdf0 w d) (sd_multiple w)) by (try assumption; lia).
-  fold (sd_sdf1 w d). cbn [sd_bind].
-  rewrite (round_up_exact (sd_eps0 w d) (sd_sumdf1 w d)) by (try assumption; lia).
-  fold (sd_eps1 w d). cbn [sd_bind].
-  rewrite (round_up_exact (sd_spd0 w d) (sd_sdf1 w d)) by (try assumption; lia).
-  fold (sd_spd1 w d). cbn [sd_bind].
-  destruct (sd_sdf1 w d =? 0) eqn:Es; [apply N.eqb_eq in Es; contradiction|].
-  rewrite Hk. cbn [sd_bind].
-  rewrite u32_small by lia. reflexivity.
-Qed.
 
 (* ------------------------------------------------------------------ *)
-(* align_ok_partial                                                    *)
+(* concrete instances: hypotheses are satisfiable, defaults are fine,  *)
+(* and the witnesses that refute the unguarded statement               *)
 
-Lemma align_ok_partial : forall w d, In w sd_widths -> sd_guard w d ->
-  exists d', sd_align w d = SdOk d' /\ Consistent w d' /\
-             (w <> 24 -> Entry256 w d') /\
-             sdf d' mod sd_multiple w = 0 /\ spd d' < U32 /\ sdf d' < U32 /\ eps d' < U32.
+Definition sd_zero : sigdef := mkSigDef 0 0 0 0 0 0.
+
+Lemma in_range_b : forall d,
+  (spd d <? U32) && (sdf d <? U32) && (eps d <? U32) && (sumdf d <? U32) && (anno d <? U32) && (utc d <? U32) = true ->
+  in_range d.
 Proof.
-  intros w d Hw (G1 & G2 & G3 & G4a & G4b).
-  destruct (align_guarded_form w d Hw G1 G2 G3) as (k & (K1 & K2 & K3 & K4) & S1 & Hle & Hlt & Hal).
-  destruct (width_facts w Hw) as (Hw0 & Hm0 & Hm256 & WF & _).
-  destruct (mins w d) as (M1 & M2 & M3 & M4).
-  unfold guard_sdf, guard_spd, guard_eps in *.
-  pose proof (round_spec (sd_sdf0 w d) (sd_multiple w) Hm0) as (R1 & R2 & R3).
-  fold (sd_sdf1 w d) in R1, R2, R3.
-  assert (Hs0 : sd_sdf1 w d <> 0) by lia.
-  assert (Hu0 : sd_sumdf1 w d <> 0) by lia.
-  pose proof (round_spec (sd_eps0 w d) (sd_sumdf1 w d) Hu0) as (E1 & E2 & E3).
-  fold (sd_eps1 w d) in E1, E2, E3.
-  destruct (WF (sd_sdf1 w d) R1) as (W1 & W2 & W3).
-  assert (Hk0 : k <> 0) by lia.
-  assert (Hq : sd_sdf1 w d * k / sd_sdf1 w d = k) by (rewrite N.mul_comm; apply N.div_mul; exact Hs0).
-  assert (Hr : (sd_sdf1 w d * k) mod sd_sdf1 w d = 0) by (rewrite N.mul_comm; apply N.mod_mul; exact Hs0).
-  assert (Hge : sd_sdf1 w d * 1 <= sd_sdf1 w d * k) by (apply N.mul_le_mono_l; exact K1).
-  eexists. split; [exact Hal|].
-  split; [|split; [|split; [|split; [|split]]]]; cbn [spd sdf eps sumdf anno utc]; try assumption; try lia.
-  unfold Consistent. cbn [spd sdf eps sumdf anno utc]. rewrite Hq. unfold_consts.
-  repeat split; try assumption; lia.
+  intros d H. rewrite !andb_true_iff, !N.ltb_lt in H. unfold in_range. tauto.
 Qed.
 
-(* ------------------------------------------------------------------ *)
-(* tightness: outside the guard the C faults or stores inconsistent    *)
-(* parameters                                                          *)
-
-Lemma align_guard_necessary : forall w d d', In w sd_widths -> in_range d ->
-  sd_align w d = SdOk d' -> Consistent w d' -> sd_guard w d.
+(* every all-defaults definition (all six fields zero) meets the guard; for 24-bit
+   samples it does not (no defaults: annotation/utc factors stay zero) *)
+Lemma defaults_meet_guard : forall w, In w sd_widths -> w <> 24 -> sd_guard w sd_zero.
 Proof.
-  intros w d d' Hw Hr Hal Hc.
-  destruct (width_facts w Hw) as (Hw0 & Hm0 & Hm256 & _ & _).
-  destruct (mins w d) as (M1 & M2 & M3 & M4).
-  pose proof (defaults_in_range w d Hw Hr) as (D1 & D2 & D3 & D4 & D5 & D6).
-  assert (B1 : sd_sdf0 w d < U32) by (unfold sd_sdf0, U32 in *; unfold_consts; lia).
-  assert (B2 : sd_spd0 w d < U32) by (unfold sd_spd0, U32 in *; unfold_consts; lia).
-  assert (B3 : sd_eps0 w d < U32) by (unfold sd_eps0, U32 in *; unfold_consts; lia).
-  assert (B4 : sd_sumdf1 w d < U32) by (unfold sd_sumdf1, U32 in *; unfold_consts; lia).
-  assert (Hu0 : sd_sumdf1 w d <> 0) by lia.
-  assert (Ew : (w =? 0) = false) by (apply N.eqb_neq; exact Hw0).
-  (* 1: the rounding of sample_decimate_factor *)
-  destruct (N.lt_ge_cases (sd_sdf0 w d + sd_multiple w - 1) U32) as [G1|G1].
-  2:{ exfalso. unfold sd_align in Hal. rewrite Ew in Hal.
-      fold (sd_sdf0 w d) (sd_spd0 w d) (sd_eps0 w d) (sd_sumdf1 w d) in Hal.
-      rewrite (round_up_wraps (sd_sdf0 w d) (sd_multiple w)) in Hal by (unfold U32 in *; try assumption; lia).
-      cbn [sd_bind] in Hal.
-      destruct (sd_round_up (sd_eps0 w d) (sd_sumdf1 w d)); cbn in Hal; discriminate. }
-  pose proof (round_spec (sd_sdf0 w d) (sd_multiple w) Hm0) as (R1 & R2 & R3).
-  fold (sd_sdf1 w d) in R1, R2, R3.
-  assert (Hs0 : sd_sdf1 w d <> 0) by lia.
-  assert (Es : (sd_sdf1 w d =? 0) = false) by (apply N.eqb_neq; exact Hs0).
-  (* 2: the rounding of samples_per_data *)
-  destruct (N.lt_ge_cases (sd_spd0 w d + sd_sdf1 w d - 1) U32) as [G2|G2].
-  2:{ exfalso. unfold sd_align in Hal. rewrite Ew in Hal.
-      fold (sd_sdf0 w d) (sd_spd0 w d) (sd_eps0 w d) (sd_sumdf1 w d) in Hal.
-      rewrite (round_up_exact (sd_sdf0 w d) (sd_multiple w)) in Hal by (try assumption; lia).
-      fold (sd_sdf1 w d) in Hal. cbn [sd_bind] in Hal.
-      destruct (sd_round_up (sd_eps0 w d) (sd_sumdf1 w d)); [|cbn in Hal; discriminate].
-      cbn [sd_bind] in Hal.
-      rewrite (round_up_wraps (sd_spd0 w d) (sd_sdf1 w d)) in Hal by (try assumption; lia).
-      cbn [sd_bind] in Hal. rewrite Es in Hal.
-      rewrite N.div_0_l in Hal by exact Hs0. cbn in Hal. discriminate. }
-  (* 3: the rounding of entries_per_summary *)
-  destruct (N.lt_ge_cases (sd_eps0 w d + sd_sumdf1 w d - 1) U32) as [G3|G3].
-  2:{ exfalso. unfold sd_align in Hal. rewrite Ew in Hal.
-      fold (sd_sdf0 w d) (sd_spd0 w d) (sd_eps0 w d) (sd_sumdf1 w d) in Hal.
-      rewrite (round_up_exact (sd_sdf0 w d) (sd_multiple w)) in Hal by (try assumption; lia).
-      fold (sd_sdf1 w d) in Hal. cbn [sd_bind] in Hal.
-      rewrite (round_up_wraps (sd_eps0 w d) (sd_sumdf1 w d)) in Hal by (try assumption; lia).
-      cbn [sd_bind] in Hal.
-      destruct (sd_round_up (sd_spd0 w d) (sd_sdf1 w d)); [|cbn in Hal; discriminate].
-      cbn [sd_bind] in Hal. rewrite Es in Hal.
-      destruct (sd_fit_loop _ 0 _); [|cbn in Hal; discriminate].
-      cbn [sd_bind] in Hal. injection Hal as <-.
-      destruct Hc as (_ & _ & _ & _ & _ & _ & _ & C8 & _). cbn [eps] in C8.
-      unfold_consts. lia. }
-  (* 4: annotation / utc factors *)
-  destruct (align_guarded_form w d Hw G1 G2 G3) as (k & _ & _ & _ & _ & Hal').
-  rewrite Hal' in Hal. injection Hal as <-.
-  destruct Hc as (_ & _ & _ & _ & _ & _ & _ & _ & _ & C10 & C11). cbn [anno utc] in C10, C11.
-  repeat split; try assumption; lia.
+  intros w Hw H24. cbn [In sd_widths] in Hw.
+  destruct Hw as [H|[H|[H|[H|[H|[H|[H|H]]]]]]]; [subst w ..|contradiction];
+  try contradiction; apply guardb_iff; vm_compute; reflexivity.
 Qed.
 
-Theorem align_ok_iff : forall w d, In w sd_widths -> in_range d ->
-  ((exists d', sd_align w d = SdOk d' /\ Consistent w d') <-> sd_guard w d).
+Lemma defaults_24_fail_guard : ~ sd_guard 24 sd_zero.
+Proof. intro H. apply guardb_iff in H. vm_compute in H. discriminate. Qed.
+
+Lemma defaults_normal_forms :
+  sd_align 1 sd_zero = SdOk (mkSigDef DEF1_samples_per_data DEF1_sample_decimate_factor DEF1_entries_per_summary DEF1_summary_decimate_factor DEF32_annotation_decimate_factor DEF32_utc_decimate_factor) /\
+  sd_align 4 sd_zero = SdOk (mkSigDef DEF4_samples_per_data DEF4_sample_decimate_factor DEF4_entries_per_summary DEF4_summary_decimate_factor DEF32_annotation_decimate_factor DEF32_utc_decimate_factor) /\
+  sd_align 8 sd_zero = SdOk (mkSigDef DEF8_samples_per_data DEF8_sample_decimate_factor DEF8_entries_per_summary DEF8_summary_decimate_factor DEF32_annotation_decimate_factor DEF32_utc_decimate_factor) /\
+  sd_align 16 sd_zero = SdOk (mkSigDef DEF16_samples_per_data DEF16_sample_decimate_factor DEF16_entries_per_summary DEF16_summary_decimate_factor DEF32_annotation_decimate_factor DEF32_utc_decimate_factor) /\
+  sd_align 32 sd_zero = SdOk (mkSigDef DEF32_samples_per_data DEF32_sample_decimate_factor DEF32_entries_per_summary DEF32_summary_decimate_factor DEF32_annotation_decimate_factor DEF32_utc_decimate_factor) /\
+  sd_align 64 sd_zero = SdOk (mkSigDef DEF64_samples_per_data DEF64_sample_decimate_factor DEF64_entries_per_summary DEF64_summary_decimate_factor DEF32_annotation_decimate_factor DEF32_utc_decimate_factor).
+Proof. vm_compute. repeat split; reflexivity. Qed.
+
+(* a non-trivial guarded definition: f32, (1000, 100, 33, 17, 3, 3) -> (208, 104, 34, 17, 3, 3) *)
+Lemma guard_example :
+  sd_guard 32 (mkSigDef 1000 100 33 17 3 3) /\
+  sd_align 32 (mkSigDef 1000 100 33 17 3 3) = SdOk (mkSigDef 208 104 34 17 3 3).
+Proof. split; [apply guardb_iff; vm_compute; reflexivity|vm_compute; reflexivity]. Qed.
+
+Lemma guard_example_24 :
+  sd_guard 24 (mkSigDef 100 11 100 10 5 5) /\
+  sd_align 24 (mkSigDef 100 11 100 10 5 5) = SdOk (mkSigDef 100 20 100 10 5 5).
+Proof. split; [apply guardb_iff; vm_compute; reflexivity|vm_compute; reflexivity]. Qed.
+
+Lemma idem_example :
+  let d := mkSigDef 8192 128 640 20 100 100 in
+  In 32 sd_widths /\ Consistent 32 d /\ sdf d mod sd_multiple 32 = 0 /\
+  spd d + sdf d - 1 < U32 /\ eps d + sumdf d - 1 < U32.
 Proof.
-  intros w d Hw Hr. split.
-  - intros (d' & Hal & Hc). eapply align_guard_necessary; eassumption.
-  - intros G. destruct (align_ok_partial w d Hw G) as (d' & Hal & Hc & _). eauto.
+  cbv zeta. split; [cbn; tauto|]. split; [apply consistentb_iff; vm_compute; reflexivity|].
+  vm_compute. repeat split; reflexivity.
+Qed.
+
+(* --- witnesses --- *)
+
+(* u64, sample_decimate_factor = 2^32-6: rounds to 2^32-4 without wrapping, then the
+   rounding of samples_per_data wraps to 0, entries_per_data = 0, SIGFPE in the loop test *)
+Lemma refuted_divzero_spd :
+  sd_validate 1 1 JLS_SIGNAL_TYPE_FSR JLS_DATATYPE_U64 = 0 /\
+  in_range (mkSigDef 0 4294967290 0 0 0 0) /\
+  sd_align (sample_size JLS_DATATYPE_U64) (mkSigDef 0 4294967290 0 0 0 0) = SdFault SdDivZero.
+Proof. split; [reflexivity|]. split; [apply in_range_b; reflexivity|vm_compute; reflexivity]. Qed.
+
+(* f32, sample_decimate_factor = 2^32-1: the rounding itself wraps to 0, SIGFPE in
+   round_up_to_multiple(samples_per_data, 0) *)
+Lemma refuted_divzero_sdf :
+  sd_validate 1 1 JLS_SIGNAL_TYPE_FSR JLS_DATATYPE_F32 = 0 /\
+  in_range (mkSigDef 0 4294967295 0 0 0 0) /\
+  sd_align (sample_size JLS_DATATYPE_F32) (mkSigDef 0 4294967295 0 0 0 0) = SdFault SdDivZero.
+Proof. split; [reflexivity|]. split; [apply in_range_b; reflexivity|vm_compute; reflexivity]. Qed.
+
+(* f32, entries_per_summary = 2^32-1: rounds (wraps) to 0 and is stored as 0 *)
+Lemma refuted_eps_zero :
+  sd_validate 1 1 JLS_SIGNAL_TYPE_FSR JLS_DATATYPE_F32 = 0 /\
+  in_range (mkSigDef 0 0 4294967295 0 0 0) /\
+  sd_align (sample_size JLS_DATATYPE_F32) (mkSigDef 0 0 4294967295 0 0 0) = SdOk (mkSigDef 8192 128 0 20 100 100) /\
+  ~ Consistent (sample_size JLS_DATATYPE_F32) (mkSigDef 8192 128 0 20 100 100).
+Proof.
+  split; [reflexivity|]. split; [apply in_range_b; reflexivity|]. split; [vm_compute; reflexivity|].
+  intro H. apply consistentb_iff in H. vm_compute in H. discriminate.
+Qed.
+
+(* i24, everything zero: no defaults at all; annotation/utc factors stay 0 and the
+   level-1 entry covers 240 bits *)
+Lemma refuted_24bit :
+  sd_validate 1 1 JLS_SIGNAL_TYPE_FSR JLS_DATATYPE_I24 = 0 /\
+  sd_align (sample_size JLS_DATATYPE_I24) sd_zero = SdOk (mkSigDef 10 10 10 10 0 0) /\
+  ~ Consistent (sample_size JLS_DATATYPE_I24) (mkSigDef 10 10 10 10 0 0) /\
+  ~ Entry256 (sample_size JLS_DATATYPE_I24) (mkSigDef 10 10 10 10 0 0).
+Proof.
+  split; [reflexivity|]. split; [vm_compute; reflexivity|]. split.
+  - intro H. apply consistentb_iff in H. vm_compute in H. discriminate.
+  - intro H. apply entry256b_iff in H. vm_compute in H. discriminate.
+Qed.
+
+(* u24 with non-zero annotation/utc factors: everything holds except "multiple of 256 bits" *)
+Lemma refuted_24bit_entry256 :
+  sd_guard 24 (mkSigDef 100 11 100 10 5 5) /\
+  sd_align 24 (mkSigDef 100 11 100 10 5 5) = SdOk (mkSigDef 100 20 100 10 5 5) /\
+  Consistent 24 (mkSigDef 100 20 100 10 5 5) /\ ~ Entry256 24 (mkSigDef 100 20 100 10 5 5).
+Proof.
+  split; [apply guardb_iff; vm_compute; reflexivity|]. split; [vm_compute; reflexivity|]. split.
+  - apply consistentb_iff. vm_compute. reflexivity.
+  - intro H. apply entry256b_iff in H. vm_compute in H. discriminate.
+Qed.
+
+(* stored parameters that satisfy every relation and fit in 32 bits, yet normalising
+   them again divides by zero: u64 (3*2^30, 3*2^30, 10, 10, 100, 100) *)
+Lemma refuted_idem_consistent_only :
+  let d := mkSigDef 3221225472 3221225472 10 10 100 100 in
+  Consistent 64 d /\ in_range d /\ sdf d mod sd_multiple 64 = 0 /\ sd_align 64 d = SdFault SdDivZero.
+Proof.
+  cbv zeta. split; [apply consistentb_iff; vm_compute; reflexivity|].
+  split; [apply in_range_b; reflexivity|]. split; vm_compute; reflexivity.
+Qed.
+
+(* a definition inside the guard whose normal form is outside it: the second file faults *)
+Lemma refuted_twice_divzero :
+  let d := mkSigDef 10 3221225472 10 10 0 0 in
+  let d' := mkSigDef 3221225472 3221225472 10 10 100 100 in
+  sd_guard 64 d /\ sd_align 64 d = SdOk d' /\ Consistent 64 d' /\ sd_align 64 d' = SdFault SdDivZero.
+Proof.
+  cbv zeta. split; [apply guardb_iff; vm_compute; reflexivity|]. split; [vm_compute; reflexivity|].
+  split; [apply consistentb_iff; vm_compute; reflexivity|vm_compute; reflexivity].
+Qed.
+
+(* the same through entries_per_summary: f32, summary_decimate_factor = 2^31+1; the second
+   pass stores entries_per_summary = 0 *)
+Lemma refuted_twice_changes :
+  let d := mkSigDef 0 0 10 2147483649 0 0 in
+  let d' := mkSigDef 384 128 2147483649 2147483649 100 100 in
+  sd_guard 32 d /\ sd_align 32 d = SdOk d' /\ Consistent 32 d' /\
+  sd_align 32 d' = SdOk (mkSigDef 384 128 0 2147483649 100 100).
+Proof.
+  cbv zeta. split; [apply guardb_iff; vm_compute; reflexivity|]. split; [vm_compute; reflexivity|].
+  split; [apply consistentb_iff; vm_compute; reflexivity|vm_compute; reflexivity].
 Qed.
